@@ -53,7 +53,13 @@ impl std::fmt::Display for Nested<'_> {
 pub fn child_concstd(args: &[String]) {
     let mode = crate::props::stdout::mode_of(&args[0]);
     let mut l = flexi_logger::Logger::with(flexi_logger::LogSpecification::trace()).format(crate::props::flw::raw_format).write_mode(mode);
-    l = if args[1] == "out" { l.log_to_stdout() } else { l.log_to_stderr() };
+    l = match args[1].as_str() {
+        "out" => l.log_to_stdout(),
+        "err" => l.log_to_stderr(),
+        // file output, every record duplicated to stderr (the captured stream)
+        _ => l.log_to_file(flexi_logger::FileSpec::default().directory(std::path::Path::new(&args[3]).parent().unwrap().join(format!("dup-{}", std::process::id()))).basename("d").suppress_timestamp())
+              .duplicate_to_stderr(flexi_logger::Duplicate::All).format_for_stderr(crate::props::flw::raw_format),
+    };
     let (boxed, handle) = l.build().unwrap();
     let boxed: Arc<Box<dyn log::Log>> = Arc::new(boxed);
     install_noise(args[2].parse().unwrap_or(1));
@@ -75,6 +81,7 @@ pub fn child_concstd(args: &[String]) {
     }
     for j in joins { let _ = j.join(); }
     handle.shutdown();
+    if args[1] == "dup" { let _ = std::fs::remove_dir_all(std::path::Path::new(&args[3]).parent().unwrap().join(format!("dup-{}", std::process::id()))); }
     std::process::exit(0);
 }
 
@@ -276,7 +283,7 @@ pub fn execute(ctx: &mut Ctx, lines: &[String]) -> Vec<(Vec<String>, Vec<String>
                 std::fs::write(&pf, targs.join("\n") + "\n").unwrap();
                 let o = std::process::Command::new(exe).arg("child").arg("concstd").arg(&m).arg(target).arg(seed).arg(&pf).output().expect("child");
                 let _ = std::fs::remove_file(&pf);
-                let all = if *target == "out" { o.stdout } else { o.stderr };
+                let all = if *target == "out" { o.stdout } else { o.stderr };      // (`dup`: the duplicates on stderr)
                 let (obs, _lines, mut bad) = observe(&threads, &all);
                 if !o.status.success() && bad.is_none() { bad = Some(format!("the child ended with {:?}", o.status)); }
                 ctx.report.count(&format!("runstd.{}.{target}", m.split(':').next().unwrap()));
@@ -323,17 +330,27 @@ pub fn gen_c03(tier: &str, seed: u64) -> Vec<Vec<String>> {
             let long = r.chance(1, 3);
             let ls: Vec<String> = (0..nl).map(|i| {
                 // now and then a record far above every buffer size the crate keeps between records
-                let len = if long && r.chance(1, 12) { *r.pick(&[9_000usize, 20_000, 40_000, 70_000, 140_000]) } else { *r.pick(&[8usize, 12, 20, 35, 64, 130]) };
+                let len = if long && r.chance(1, 40) { *r.pick(&[9_000usize, 20_000, 70_000]) } else { *r.pick(&[8usize, 12, 20, 35, 64, 130]) };
                 let h = hex(&line_for(t, i, len));
                 if recursive && i + 1 < nl && r.chance(1, 3) { format!("R{h}") } else { h }
             }).collect();
             c.push(format!("THREAD {t} {}", ls.join(" ")));
         }
-        if k % 4 == 3 {
+        if k % 3 == 2 {
             // stdout / stderr as output (a child process whose stream is captured); no nested logging
             // here (known finding C10-recursion-buffered-stdout)
             for l in c.iter_mut() { if l.starts_with("THREAD ") { *l = l.replace(" R", " "); } }
-            c.push(format!("RUNSTD {} {} {}", r.pick_s(&["out", "err"]), cap.map_or("_".into(), |x| x.to_string()), r.next() % 1_000_000));
+            let target = r.pick_s(&["out", "err", "dup", "dup"]);
+            if target == "dup" {
+                // duplication to stderr: many short-lived threads whose records fill the format buffer
+                // exactly (its initial capacity and the sizes it grows to)
+                c.retain(|l| !l.starts_with("THREAD "));
+                for t in 0..(r.range(16, 40) as usize) {
+                    let ls: Vec<String> = (0..r.range(3, 6) as usize).map(|i| hex(&line_for(t, i, *r.pick(&[201usize, 201, 401, 606, 801, 64])))).collect();
+                    c.push(format!("THREAD {t} {}", ls.join(" ")));
+                }
+            }
+            c.push(format!("RUNSTD {target} {} {}", cap.map_or("_".into(), |x| x.to_string()), r.next() % 1_000_000));
             c.push("END".into());
             cases.push(c);
             continue;
